@@ -231,8 +231,15 @@ PROPS["C04"] = {
     "assumptions": ["the exact integral is taken over the published pieces [b_i, b_i+1)"],
 }
 
+def _c18_extra(tier, dims):
+    out = []
+    for d in dims:
+        out += split("spline_fwd_d%d" % d, 300 if tier == "quick" else 40000, 1 if tier == "quick" else 2, prop="C18g")
+    return out
+
+
 PROPS["C18"] = {
-    "jobs": _fwd_jobs("C18", 8000, 400000),
+    "jobs": _fwd_jobs("C18", 8000, 400000, _c18_extra),
     "floor_quick": 25000, "floor_thorough": 1000000,
     "rule": "order x dimension (quick 1,3,4,6; thorough 1..10) x N in 2..40 x ratio in [1,100] (pinned 4,10,20,30,50,100 or log-uniform) x placement {single short among long at every position, single long among short, "
             "alternating, geometric ramp, log-uniform mix} x min T in [0.01,1] s x data incl. non-zero boundary derivatives, start time 0. non-trivial = ratio >= 10 and N >= 3",
@@ -467,3 +474,23 @@ PROPS["C12"] = {
     "tolerances": {"all comparisons": "bitwise"},
     "assumptions": ["ThreadSanitizer observes the executions it is given; it reports unsynchronised conflicting accesses without needing the unlucky interleaving, but cannot prove absence"],
 }
+
+# ---------------------------------------------------------------------------------------------
+# libFuzzer targets for the discrete-structure properties (same check functions, bytes -> words)
+FUZZ = {"C03": ("fuzz_c03", 3, 3, "ppoly_c03_d3", 1500), "C11": ("fuzz_c11", 11, 3, "ppoly_c11_d3", 3000),
+        "C16": ("fuzz_c16", 16, 2, "opt_c16_d2", 512), "C20": ("fuzz_c20", 20, 2, "ppoly_c20_d2", 256)}
+for _p, (_t, _n, _d, _rt, _len) in FUZZ.items():
+    T(_t, "fuzz_ppoly.cpp", defs=["FUZZ_PROP=%d" % _n, "VDIM=%d" % _d], san="fuzz")
+
+
+def fuzz_jobs(p, tier):
+    t, n, d, rt, ln = FUZZ[p]
+    runs = 0 if tier == "quick" else 400000
+    k = 1 if tier == "quick" else 4
+    return [{"target": t, "fuzz": True, "prop": p, "runs": runs, "replay_target": rt, "corpus": "corpus/%s" % p, "max_len": 4 * ln, "cases": 0} for _ in range(k)]
+
+
+for _p in FUZZ:
+    _old = PROPS[_p]["jobs"]
+    PROPS[_p]["jobs"] = (lambda old, p: (lambda tier: old(tier) + fuzz_jobs(p, tier)))(_old, _p)
+    PROPS[_p]["rule"] += "; plus a libFuzzer front end on the same check function (quick: replay of the committed corpus; thorough: 4 campaigns of 4e5 runs from that corpus)"
